@@ -28,6 +28,13 @@ def run(ck, tier):
     ck.require(any(c["opts"]["grind"] > 0 for c in cases), "no instance with grinding")
     ck.require(any(c["desc"]["log_len"] + {2: 1, 4: 2, 8: 3, 16: 4, 32: 5, 64: 6, 128: 7}[c["opts"]["blowup"]] >= 11 for c in cases),
                "no instance with an LDE domain above the concurrency thresholds")
+    # design level: every interleaving of the concurrent Merkle-node builder's task schedule
+    mdir = os.path.join(vf.SPEC, "merkle")
+    for c in (("16_4", "16_8", "32_4", "8_8") if thorough else ("16_4", "16_8")):
+        r = vf.tlc("MerkleConc.tla", "MerkleConc_%s.cfg" % c, cwd=mdir, workers=2, timeout=900)
+        ck.add_tlc("design:MerkleConc_" + c, r)
+        if not r.ok:
+            raise vf.ToolError("MerkleConc design model violates its invariants (specification bug): %s" % r.error)
     variants = [("serial", None)] + [("concurrent", t) for t in ((1, 2, 3, 4, 7, 8, 16) if thorough else (1, 2, 4, 7, 16))] + [("async", None)]
     events = []
     nruns = 0
